@@ -116,6 +116,67 @@ def keyed_guard(fn, add_call):
             return True
     return False
 
+def _extra_condition(init, dupname, extras):
+    """`if duplicates and C: raise` - True when C follows from `duplicates` being non-empty (C is `len(X) > 1` with X the very
+    collection the names were counted over), False when C is a count of something else (it can be false while names clash),
+    None otherwise"""
+    counted_over = None
+    for n in own_nodes(init.node):
+        if isinstance(n, ast.Assign) and any(isinstance(x, ast.Name) and x.id == dupname for x in n.targets):
+            for c in ast.walk(n.value):
+                if isinstance(c, ast.Call) and K.src(c.func) == "Counter" and c.args and isinstance(c.args[0], (ast.GeneratorExp, ast.ListComp)) and isinstance(c.args[0].generators[0].iter, ast.Name):
+                    counted_over = c.args[0].generators[0].iter.id
+            # the counter may have been built in a statement of its own
+            for nm in K.names_in(n.value):
+                for m in own_nodes(init.node):
+                    if isinstance(m, ast.Assign) and any(isinstance(x, ast.Name) and x.id == nm for x in m.targets):
+                        for c in ast.walk(m.value):
+                            if isinstance(c, ast.Call) and K.src(c.func) == "Counter" and c.args and isinstance(c.args[0], (ast.GeneratorExp, ast.ListComp)) and isinstance(c.args[0].generators[0].iter, ast.Name):
+                                counted_over = c.args[0].generators[0].iter.id
+    if counted_over is None or len(extras) != 1:
+        return None
+    e = extras[0]
+    if isinstance(e, ast.Compare) and len(e.ops) == 1 and isinstance(e.left, ast.Call) and isinstance(e.left.func, ast.Name) and e.left.func.id == "len" and len(e.left.args) == 1 and isinstance(e.left.args[0], ast.Name) and isinstance(e.comparators[0], ast.Constant):
+        c = e.comparators[0].value
+        at_least_two = (isinstance(e.ops[0], ast.Gt) and c <= 1) or (isinstance(e.ops[0], ast.GtE) and c <= 2) or (isinstance(e.ops[0], ast.NotEq) and c in (0, 1))
+        if e.left.args[0].id == counted_over and at_least_two:
+            return True
+        if e.left.args[0].id != counted_over:
+            return False
+    return None
+
+
+def loader_reports_what_it_loaded(idx, prog):
+    """load_commands returns a list that only ever receives names next to the call that imports / executes / walks that module"""
+    lc = prog.methods.get("load_commands")
+    if lc is None:
+        return False
+    rets = [n for n in own_nodes(lc.node) if isinstance(n, ast.Return) and n.value is not None]
+    if not rets or not all(isinstance(r.value, ast.Name) for r in rets):
+        return False
+    name = rets[0].value.id
+    if any(r.value.id != name for r in rets):
+        return False
+    ok = True
+    parents = {}
+    for n in ast.walk(lc.node):
+        for c in ast.iter_child_nodes(n):
+            parents[id(c)] = n
+    for n in own_nodes(lc.node):
+        grows = (isinstance(n, ast.Call) and isinstance(n.func, ast.Attribute) and n.func.attr in ("append", "extend") and isinstance(n.func.value, ast.Name) and n.func.value.id == name) or (isinstance(n, ast.AugAssign) and isinstance(n.target, ast.Name) and n.target.id == name)
+        if not grows:
+            continue
+        # the enclosing statement list must contain a loading call
+        blk = n
+        while id(blk) in parents and not isinstance(parents[id(blk)], (ast.For, ast.If, ast.FunctionDef, ast.With, ast.Try)):
+            blk = parents[id(blk)]
+        owner = parents.get(id(blk))
+        body = getattr(owner, "body", []) if owner is not None else []
+        loads_here = any(isinstance(c, ast.Call) and (K.src(c.func).split(".")[-1] in ("import_module", "exec_module", "load_commands", "__import__", "load_module")) for st in body for c in ast.walk(st))
+        ok = ok and loads_here
+    return ok
+
+
 def run(ctx, idx):
     A = K.anchors(idx)
     ctx.rule("C19.a", "The predicate selecting registry entries for a requested library is module equality or a dotted-prefix test (lib + '.'); a bare startswith(lib) or substring test also admits libraries whose names merely share the prefix.")
@@ -142,6 +203,12 @@ def run(ctx, idx):
         ctx.violate("C19.a", con, K.rel(init), comp.lineno, "registry entries are not filtered by the requested libraries at all: every command class ever defined in the process is visible")
     else:
         cond = g.ifs[0]
+        # a conjunct that only drops entries already collected (`and info not in <the list being built>`) does not change the set
+        if isinstance(cond, ast.BoolOp) and isinstance(cond.op, ast.And):
+            built = {t.id for st in own_nodes(init.node) if isinstance(st, (ast.Assign, ast.AugAssign)) for t in (st.targets if isinstance(st, ast.Assign) else [st.target]) if isinstance(t, ast.Name) and any(comp is x for x in ast.walk(st.value))}
+            rest = [c_ for c_ in cond.values if not (isinstance(c_, ast.Compare) and len(c_.ops) == 1 and isinstance(c_.ops[0], ast.NotIn) and isinstance(c_.left, ast.Name) and c_.left.id == tvar and isinstance(c_.comparators[0], ast.Name) and c_.comparators[0].id in built)]
+            if len(rest) == 1:
+                cond = rest[0]
         verdict = None
         libvar = None
         inner = None
@@ -194,6 +261,20 @@ def run(ctx, idx):
             firsts = [m for m, l in h.succ if l == "loop"]
             if firsts and all(cfg0.must_pass_through(b, h, set(loads)) for b in firsts) and cfg0.must_pass_through(cfg0.entry, cfg0.exit, {h}):
                 okl = True
+            elif firsts and cfg0.must_pass_through(cfg0.entry, cfg0.exit, {h}):
+                # a library may be passed over when this very constructor has already loaded it: the test is membership in a local
+                # collection that only receives what load_commands reports to have loaded
+                lv = h.meta["target"].id if isinstance(h.meta["target"], ast.Name) else None
+                skips = [t for t in cfg0.find("test") if isinstance(t.ast, ast.Compare) and len(t.ast.ops) == 1 and isinstance(t.ast.ops[0], (ast.In, ast.NotIn)) and isinstance(t.ast.left, ast.Name) and t.ast.left.id == lv and isinstance(t.ast.comparators[0], ast.Name)]
+                for t in skips:
+                    rec = t.ast.comparators[0].id
+                    stores = [n_ for n_ in own_nodes(init.node) if isinstance(n_, ast.Name) and n_.id == rec and isinstance(n_.ctx, ast.Store)]
+                    init_ok = [st for st in own_nodes(init.node) if isinstance(st, ast.Assign) and any(isinstance(t_, ast.Name) and t_.id == rec for t_ in st.targets) and K.src(st.value) in ("set()", "[]", "list()")]
+                    feeds = [c_ for c_ in own_nodes(init.node) if isinstance(c_, ast.Call) and isinstance(c_.func, ast.Attribute) and isinstance(c_.func.value, ast.Name) and c_.func.value.id == rec]
+                    fed_by_loader = feeds and all(c_.func.attr in ("update", "extend") and len(c_.args) == 1 and isinstance(c_.args[0], ast.Call) and isinstance(c_.args[0].func, ast.Attribute) and c_.args[0].func.attr == "load_commands" for c_ in feeds)
+                    stay = [m for m, l in t.succ if l == ("false" if isinstance(t.ast.ops[0], ast.In) else "true")]
+                    if len(stores) == 1 and init_ok and fed_by_loader and stay and all(cfg0.must_pass_through(m, h, set(loads)) for m in stay) and loader_reports_what_it_loaded(idx, prog):
+                        okl = True
         ctx.ob("C19.a", con, K.rel(init), loads[0].line, okl, "load_commands runs for every element of the requested libraries" if okl else
                "load_commands is skipped for some requested libraries (a condition or `continue` inside the loading loop): whether such a library's commands exist then depends on what else was requested and on what earlier programs or imports already registered")
     # the loader executes what the filter admits: every module below a requested package
@@ -239,6 +320,12 @@ def run(ctx, idx):
     why = "no duplicate-name test raising an error precedes the store of the lookup"
     for t in dup_tests:
         nm = t.ast.id if isinstance(t.ast, ast.Name) else None
+        if nm is None and isinstance(t.ast, ast.BoolOp) and isinstance(t.ast.op, ast.And) and any(isinstance(v_, ast.Name) for v_ in t.ast.values):
+            cand = [v_.id for v_ in t.ast.values if isinstance(v_, ast.Name)][0]
+            dsrc = " ".join(K.src(n.value) for n in own_nodes(init.node) if isinstance(n, ast.Assign) and any(isinstance(x, ast.Name) and x.id == cand for x in n.targets))
+            if "Counter(" in dsrc or ".count(" in dsrc:
+                _extra_condition(init, cand, [v_ for v_ in t.ast.values if not (isinstance(v_, ast.Name) and v_.id == cand)])
+                raise AnalysisError("C19.b: the duplicate test `%s` is combined with a further condition (`%s`) before the raise: cannot decide whether duplicated names always reach it" % (cand, K.src(t.ast)))
         if nm is None:
             continue
         # the tested name must be computed from a Counter / count of command names > 1
@@ -264,6 +351,20 @@ def run(ctx, idx):
         if counted and truthy and all(cfg.must_pass_through(m, cfg.exit, set(raises)) for m in truthy) and all(cfg.dominates(t, s) for s in stores):
             ok = True
             why = "`if %s: raise` (names counted more than once) dominates the store of the lookup" % nm
+        elif counted and truthy and all(cfg.dominates(t, s) for s in stores) and [t2 for t2 in cfg.find("test") if t2 is not t and not t2.meta.get("in_comp") and cfg.dominates(t, t2) and any(cfg.dominates(t2, r_) for r_ in raises)]:
+            truthy = [t2 for t2 in cfg.find("test") if t2 is not t and not t2.meta.get("in_comp") and cfg.dominates(t, t2) and any(cfg.dominates(t2, r_) for r_ in raises)]
+            verdict_ = _extra_condition(init, nm, [t2.ast for t2 in truthy])
+            if verdict_ is True:
+                ok = True
+                why = "`if %s and <more than one entry counted>: raise` dominates the store of the lookup (the second condition follows from the first)" % nm
+                continue
+            if verdict_ is False:
+                ok = False
+                why = "the duplicate test `%s` only raises under the further condition `%s`, which can be false while command names are duplicated (a single library - a package - can define one name twice): the clash then goes unreported and one class silently shadows the other" % (nm, truthy[0].text())
+                break
+            # `if duplicates and <something else>: raise`: whether the second condition can be false while names are duplicated is
+            # not something this rule can read off the code
+            raise AnalysisError("C19.b: the duplicate test `%s` is combined with a further condition (`%s`) before the raise: cannot decide whether duplicated names always reach it" % (nm, truthy[0].text()))
         elif not counted and not why.startswith("duplicates are counted"):
             why = "the test `%s` in front of the raise is not computed from a count of command names > 1" % nm
     ctx.ob("C19.b", con, K.rel(init), stores[0].line, ok, why)
@@ -273,6 +374,18 @@ def run(ctx, idx):
     for n in own_nodes(init.node):
         if isinstance(n, ast.Assign) and n.value is comp and isinstance(n.targets[0], ast.Name):
             selname = n.targets[0].id
+        if isinstance(n, ast.AugAssign) and isinstance(n.op, ast.Add) and isinstance(n.target, ast.Name) and any(comp is x for x in ast.walk(n.value)):
+            selname = n.target.id  # collected library by library into one list
+            # an entry that lies under two requested names (a package and its sub-library, a name given twice) must be collected
+            # once, and the registry must be read only after every requested library was loaded
+            dedup = any(isinstance(c_, ast.Compare) and len(c_.ops) == 1 and isinstance(c_.ops[0], ast.NotIn) and isinstance(c_.comparators[0], ast.Name) and c_.comparators[0].id == selname for c_ in ast.walk(comp.generators[0].ifs[0])) if comp.generators[0].ifs else False
+            in_loading_loop = any(isinstance(lp, ast.For) and any(n is x for x in ast.walk(lp)) and any(isinstance(c_, ast.Call) and isinstance(c_.func, ast.Attribute) and c_.func.attr == "load_commands" for c_ in ast.walk(lp)) for lp in own_nodes(init.node))
+            if not dedup:
+                ctx.violate("C19.b", "%s::collected-once" % init.key, K.rel(init), n.lineno, "the selection is accumulated library by library (`%s += [...]`) without dropping entries already collected: a command whose module lies under two requested names (a package and its sub-library, a library named twice) is collected twice and then reported as a duplicated command name" % selname)
+            elif in_loading_loop:
+                ctx.violate("C19.b", "%s::collected-once" % init.key, K.rel(init), n.lineno, "the registry is read inside the loop that loads the libraries: commands that a later library registers under an earlier library's prefix are missed on the first construction and found on the second")
+            else:
+                ctx.hold("C19.b", "%s::collected-once" % init.key, K.rel(init), n.lineno, "accumulated per library after loading, entries already collected are dropped")
     ok = sv is not None and selname is not None and selname in K.names_in(sv)
     ctx.ob("C19.b", "%s::lookup-from-selection" % init.key, K.rel(init), stores[0].line, ok,
            "lookup built from the filtered selection `%s`" % selname if ok else "the command lookup is not built from the library-filtered selection")
